@@ -25,7 +25,8 @@ def mc_jobs(ctx):
                    "Acts": acts("boot", "reload", "close", "unload", "define", "del", "fire", "set", "call")}, inv, prop, None),
         # deferred stops (windows), both subsystems
         ("windows", {"DeclSet": "{7, 8}", "SubSet": '{"dm", "legacy"}', "Eager": "FALSE", "MaxGen": 3, "MaxSteps": 4 if q else 6,
-                     "Acts": acts("define", "del", "push", "clear", "tick", "fire", "set", "call", "unload")}, inv, prop, None),
+                     "Acts": acts("define", "del", "push", "clear", "fire", "set", "call", "unload") if q else
+                     acts("define", "del", "push", "clear", "tick", "fire", "set", "call", "unload")}, inv, prop, None),
     ]
     # file contents with two definitions (also of the same name), one context; contents whose top level fails after them
     jobs.append(("contents2", {"DeclSet": "{4, 7}", "StartedSet": "{TRUE, FALSE}", "MaxDefs": 2, "MaxSteps": 2 if q else 3,
@@ -88,5 +89,5 @@ def main(ctx):
     sizes = {"sim": ctx.pick(6, 120), "depth": ctx.pick(8, 14), "rnd": ctx.pick(10, 150), "steps": ctx.pick(18, 40),
              "simsplit": ctx.pick(3, 6), "race": ctx.pick(6, 80), "tick": ctx.pick(8, 80)}
     L.main_common(ctx, "C09", mc_jobs(ctx),
-                  {"MaxGen": 8, "DeclSet": "{1, 4, 6, 7, 8, 9, 11, 12, 13, 18, 20}" if ctx.quick else "AllDecls",
+                  {"MaxGen": 8, "DeclSet": "{1, 4, 6, 7, 8, 9, 11, 12, 13, 18, 20, 23}" if ctx.quick else "AllDecls",
                    "DeclSet_masked": "{1, 4, 7, 8, 10, 11, 13, 16, 19}" if ctx.quick else "MaskedDecls"}, L.DECL_POOL, sizes)
